@@ -808,8 +808,8 @@ show_line(const YYLTYPE &loc) const {
 
     // Strip off trailing whitespace.
     size_t last = linestr.length();
-    while (isspace(linestr[--last])) {
-      linestr = linestr.substr(0, last);
+    while (last > 0 && isspace(linestr[last - 1])) {
+      linestr = linestr.substr(0, --last);
     }
 
     indent(cerr, indent_level) << linestr << "\n";
